@@ -329,7 +329,7 @@ def run_mc(work, v, module, tier, timeout=1500):
     v.add_mc(vf.tlc_mc(work, module, cfg, workers=8, timeout=timeout), "mc:" + module)
 
 
-CLI_DEFAULT = ((2, 1200, 60), (1, 20000, 1500))
+CLI_DEFAULT = ((2, 1200, 150), (1, 20000, 1500))
 
 
 def heap_pipeline(profile, quick, thorough, mc=None, cli=CLI_DEFAULT):
@@ -492,7 +492,12 @@ def _c02(work, v, tier, seed):
     if "AllRepresentable is violated" in r.out or n == 0:
         raise vf.ToolingError("Gen_Formats: a generated case is not representable (specification defect):\n" + vf.tail(r.out))
     v.add_mc(r, "gen:Formats")
-    trace = vf.drive(work, "fmt", cases=cases, n=300 if tier == "quick" else 5000, seed=seed, tier=tier)
+    # one file hop in three (quick) is written by `goalign reformat` (from a file, "-" or the default standard input)
+    trace = vf.drive(work, "fmt", cases=cases, n=300 if tier == "quick" else 5000, seed=seed, tier=tier, env=cli_env(work, 3 if tier == "quick" else 2), timeout=3000)
+    ncli = sum(1 for l in open(trace) if "written by goalign reformat" in l or '"goalign reformat' in l)
+    if ncli == 0:
+        raise vf.ToolingError("no hop was written through the command line")
+    v.notes.append("command-line front: %d hops written by `goalign reformat` (plain / .gz / .xz outputs) and read back" % ncli)
     res = vf.tlc_trace(work, "Trace_Formats", trace, cfg=write_cfg(work, "Trace_Formats.cfg", invariants=["Done"]))
     fmt_account(v, trace, res)
     v.notes.append("%d of %d hops were on representable inputs and judged" % (res.get("judged", 0), res.get("consumed", 0)))
